@@ -354,11 +354,18 @@ class Gen:
                 keys = d(st.lists(st.sampled_from([0.0, 1.0, -1.0, 2.0, 0.5, 100.0]), min_size=1, max_size=4, unique=True))
                 pt["enum"] = [[float(k).hex(), f"F{i}"] for i, k in enumerate(keys)]
             else:
-                enc = self.gen_numeric_enc("int", avail, True, pname, small=True)
+                wide = not self.p.get("small_ints") and not self.aligned_doc and self.chance(0.15)
+                enc = self.gen_numeric_enc("int", avail, True, pname, small=not wide)
+                if wide:
+                    enc["bits"] = d(st.sampled_from([54, 56, 63, 64]))   # keys that no double represents
+                    if enc["bits"] % 8:
+                        enc["order"] = BE
                 pt["enc"] = enc
                 hi = 2 ** enc["bits"] - 1 if enc["sign"] == "unsigned" else 2 ** (enc["bits"] - 1) - 1
                 lo = 0 if enc["sign"] == "unsigned" else -2 ** (enc["bits"] - 1)
                 keys = d(st.lists(st.integers(lo, hi), min_size=1, max_size=min(6, hi - lo + 1), unique=True))
+                if wide:
+                    keys = list(dict.fromkeys(keys[:3] + [hi, hi - 2, 2 ** 53 + 1]))
                 if self.chance(0.7) and hi - lo < 16:
                     keys = list(range(lo, hi + 1))
                 pt["enum"] = [[k, d(st.sampled_from(["ON", "OFF", "IDLE", "SAFE", "L", " ON", "ON  "])) + str(i)
